@@ -5,6 +5,7 @@ import (
 	"net/http"
 	"strings"
 
+	"github.com/vicanso/pike/cache"
 	"github.com/vicanso/pike/config"
 	"github.com/vicanso/pike/server"
 )
@@ -16,8 +17,8 @@ import (
 func init() { suites["loc"] = suiteLoc }
 
 var locHosts = []string{"a.test", "b.test", "c.test"}
-var locPrefixes = []string{"/a", "/a/b", "/c", "/", "/a/", "/ab"}
-var locURIs = []string{"/a", "/a/b/c", "/ab", "/c?x=/a", "/", "/b", "/a/", "/A", "/a?q=1", "/cc/a/b"}
+var locPrefixes = []string{"/a", "/a/b", "/c", "/", "/a/", "/ab", "/a?q=1"}
+var locURIs = []string{"/a", "/a/b/c", "/ab", "/c?x=/a", "/", "/b", "/a/", "/A", "/a?q=1", "/cc/a/b", "/a%2Fb", "/%61/b", "/a?q=1&r=2", "/a%3Fq=1"}
 
 func subset(r *rng, xs []string, pEmpty int) []string {
 	if r.chance(pEmpty) {
@@ -103,6 +104,38 @@ func suiteLoc(r *rng, n int) {
 				stat("routed")
 			}
 			emit("loc", itoa(int64(i*6+q)), strings.Join(enc, ";"), encList(names), hx(host), hx(uri), "=>", hx(up), itoa(int64(w.Code)), itoa(int64(calls)))
+		}
+		if !cr.chance(50) {
+			continue
+		}
+		// live update of the RUNNING server (same handler chain): another location list and another cache; the old
+		// cache goes away.  Routing must follow the server's current settings.
+		var names2 []string
+		for j := 0; j < nl; j++ {
+			if cr.chance(60) {
+				names2 = append(names2, fmt.Sprintf("l%d", j))
+			}
+		}
+		opt2 := server.ServerOption{Addr: ":0", Locations: names2, Cache: "c2"}
+		if names2 == nil {
+			opt2.Locations = []string{}
+		}
+		cache.ResetDispatchers([]config.CacheConfig{{Name: "c2", Size: 100, HitForPass: "300s"}})
+		p.srv.Update(opt2)
+		for q := 0; q < 3; q++ {
+			host := cr.pick(locHosts)
+			uri := cr.pick(locURIs)
+			before := p.calls()
+			p.mu.Lock()
+			p.lastUp = ""
+			p.mu.Unlock()
+			w := p.do("GET", host, uri, nil, nil)
+			calls := p.calls() - before
+			p.mu.Lock()
+			up := p.lastUp
+			p.mu.Unlock()
+			stat("after-update")
+			emit("loc", itoa(int64(i*6+q)), strings.Join(enc, ";"), encList(names2), hx(host), hx(uri), "=>", hx(up), itoa(int64(w.Code)), itoa(int64(calls)))
 		}
 	}
 }
